@@ -718,6 +718,18 @@ def bridge_compare(real, model, br):
         if bpos.get(pth, []) != mpos.get(pth, []):
             diffs.append("interval map of %s differs: indexer model %s, real log %s" % (
                 pth, json.dumps(bpos.get(pth))[:200], json.dumps(mpos.get(pth))[:200]))
+    # name maps of absN (insertion order = HashMap model order) and the class specification read off the AST
+    if "name_to_class" in br:
+        for key in ("name_to_class", "name_to_def"):
+            if br[key] != model.get(key):
+                diffs.append("%s differs: indexer model %s, real log %s" % (key, json.dumps(br[key])[:200], json.dumps(model.get(key))[:200]))
+        last = {}
+        for n, k in reversed(br["declared_classes"]):
+            last[n] = k
+        offered = dict((n, len(model["records"][i]["targs"])) for n, i in (model.get("name_to_class") or []))
+        if last != offered:
+            diffs.append("declared classes (ClassVisit spec on the AST) %s differ from the classes registered by the real log %s" % (
+                json.dumps(sorted(last.items()))[:200], json.dumps(sorted(offered.items()))[:200]))
     if [bfr(d) for d in br["diags"]] != [mfr(d) for d in model["diags"]]:
         diffs.append("index diagnostics differ: indexer model %s, real log %s" % (
             json.dumps([bfr(d) for d in br["diags"]])[:200], json.dumps([mfr(d) for d in model["diags"]])[:200]))
